@@ -41,6 +41,7 @@ type crashCase struct {
 	ID      string     `json:"id"`
 	Kind    string     `json:"kind"`
 	Shape   crashShape `json:"shape"`
+	Tag     string     `json:"tag"` // suffix of the pod / node names of this rig (part of the crash address)
 	At      string     `json:"at"` // crash address (after this call), "" = before the first call
 	Nodes   []string   `json:"nodes"`
 	IDs     []int      `json:"ids"`
@@ -175,6 +176,7 @@ func walLeft(t *testing.T, cl *ckit.Cluster, x *ids) []evJ {
 }
 
 type crashRig struct {
+	tag   string
 	t     *testing.T
 	cl    *ckit.Cluster
 	shape crashShape
@@ -190,7 +192,7 @@ func newCrashRig(t *testing.T, sh crashShape, tag string) *crashRig {
 	cl.Wipe()
 	pod := "p" + tag
 	cl.AddPod(pod)
-	r := &crashRig{t: t, cl: cl, shape: sh, x: newIDs()}
+	r := &crashRig{t: t, cl: cl, shape: sh, x: newIDs(), tag: tag}
 	for _, n := range nodeNames(sh.Nodes) {
 		name := n + tag
 		r.nodes = append(r.nodes, name)
@@ -305,7 +307,7 @@ func (r *crashRig) crashAt(a *ckit.Addr, first *ckit.Addr, id string) *crashCase
 	cl.Quiesce()
 	final := cl.Snapshot()
 	left := walLeft(r.t, cl, x)
-	return &crashCase{ID: id, Kind: "crash", Shape: r.shape, At: addrStr(a), Nodes: r.nodes, IDs: nil,
+	return &crashCase{ID: id, Kind: "crash", Shape: r.shape, Tag: r.tag, At: addrStr(a), Nodes: r.nodes, IDs: nil,
 		Pre: r.pre, Trace: steps, Crashed: crashed, Impl: absState(final, x, left)}
 }
 
@@ -393,7 +395,14 @@ func replayCrash(t *testing.T, out *hx.Out, path string) {
 		if json.Unmarshal(sc.Bytes(), &c) != nil || c.Kind != "crash" {
 			continue
 		}
-		rig := newCrashRig(t, c.Shape, fmt.Sprintf("r%d", i))
+		tag := c.Tag
+		if tag == "" && len(c.Nodes) > 0 && len(c.Nodes[0]) > 2 {
+			tag = c.Nodes[0][2:] // older replay files: node names are n<k><tag>
+		}
+		if tag == "" {
+			tag = fmt.Sprintf("r%d", i)
+		}
+		rig := newCrashRig(t, c.Shape, tag)
 		pts := rig.crashPoints()
 		// the map order of nodes may differ between runs: retry a few times to reach the address
 		var got *crashCase
